@@ -82,6 +82,23 @@ CHECKS = {
         "(class, raise site, cause class); native context managers/iterators only; one known deviation left (exceptions outside "
         "the Exception hierarchy are invisible to except/__exit__), masked: only the masked space is claimed clean there.",
         "DESIGN.md section 5 C02, Appendix D, notes/C02.md"),
+    "C06": (
+        "TLC model checking of spec/TimeMC.tla (metamorphic theorems of the successor function Next over the set denotation "
+        "of spec/TimeSpec.tla, both DST transitions, leap day, year end) + trace validation: evaluations of the real "
+        "TrigTime.timer_trigger_next / timer_active_check and recordings of running @time_trigger functions on a virtual wall "
+        "clock (both subsystems) accepted or rejected by spec/TimeTrace.tla (same operators)",
+        "The meaning of once()/period()/cron() specifications and @time_active windows is an explicit TLA+ denotation (sets of "
+        "instants, minimum), independent of the implementation's day-offset search; TLC proves on a coarse grid that its "
+        "successor function is strictly increasing, skips nothing, is idempotent between occurrences, takes the minimum over "
+        "lists, follows the wall clock for cron and keeps period spacing across both DST changes. The code is bound by letting "
+        "TLC decide, case by case, whether the real function's answer (next time and DST-adjusted wait) is the denotation's "
+        "answer, and whether the run times / trigger_time values of running triggers are exactly the successive denoted "
+        "instants, startup/shutdown once.",
+        "Evaluation times and specifications are sampled from the documented grammar (two-year window, one DST time zone, "
+        "boundary instants +-1 us), not exhaustive; the model's grid is coarse and bounded; astral, croniter, zoneinfo and HA "
+        "core are trusted; cron field expansion by a small harness parser; statement-silent points are nondeterministic "
+        "(today/tomorrow reference, period time scale across DST, now = startup coincidence).",
+        "DESIGN.md section 5 C06, Appendix G, notes/C06.md"),
 }
 
 NOT_YET = {
